@@ -46,3 +46,8 @@ Proof. reflexivity. Qed.
    and every listed key is a field (swept from the implementation's classes) *)
 Lemma keys_complete : keys_missing_count = 0 /\ keys_unknown_count = 0.
 Proof. split; reflexivity. Qed.
+
+(* the key table used by validate(): QUERY_DOCUMENT_KEYS minus exactly the description keys *)
+Lemma validation_keys_exclude_descriptions :
+  vkeys_with_description_count = 0 /\ vkeys_dropped_other_count = 0 /\ vkeys_extra_count = 0.
+Proof. repeat split; reflexivity. Qed.
